@@ -568,3 +568,40 @@ Theorem C10_model_is_source_tracker_load_refuses : forall (J : Type) (blank : Tr
   SrcTracker.src_tracker_load J blank (Some [(Tracker.tkey_of "seed", x); (Tracker.tkey_of "losses", x)]) = Err 93.
 Proof. exact C10Source_Tracker.src_tracker_load_refuses. Qed.
 Print Assumptions C10_model_is_source_tracker_load_refuses.
+
+(* ---- the two models of evaluate_model.main are one ----
+   C10_evaluate_labels / _complete / _partial_refused above speak of the hand model Thetas.evaluate;
+   C10_model_is_source_cli_evaluate_model links the translated main() to Cli.cli_evaluate_model for an ABSTRACT library record.
+   Here the record is instantiated with the Thetas model (Proofs/C10CliInstance.v thetas_ev_lib: load = any function of the path,
+   concat = concat_holders, n_thetas = the declared size, predict_viability_all = one column per get_theta(k), k in
+   range(n_thetas), .T = identity on the column list, ModelEvaluation = its length check pairing chain ids with columns), so the
+   chain-major theorems are theorems about the TRANSLATED main(). *)
+From Batchie Require Import Model.Cli Generated.SrcCli Proofs.C10CliInstance.
+
+Theorem C10_source_cli_evaluate_is_thetas_evaluate : forall (P S : Type) (loadf : Cli.path -> result (holder P S)) (a : Cli.ev_args),
+  SrcCli.src_cli_evaluate_model _ _ _ _ _ _ _ (thetas_ev_lib P S loadf) a
+  = dor hs <- res_map_all loadf (Cli.ev_thetas a); dor l <- evaluate P S hs; Ok [(Cli.ev_output a, l)].
+Proof. exact src_cli_evaluate_is_thetas_evaluate. Qed.
+Print Assumptions C10_source_cli_evaluate_is_thetas_evaluate.
+
+(* the files named by --thetas being what save_h5 wrote for the chains hs, read by load_h5 in argument order: for complete
+   non-empty chains the translated main() writes exactly one evaluation whose columns are all of the first chain in step order,
+   then the second, ..., each labelled with the position of its chain on the command line *)
+Theorem C10_source_cli_evaluate_complete : forall (P S : Type) (loadf : Cli.path -> result (holder P S)) (a : Cli.ev_args) (hs : list (holder P S)),
+  res_map_all loadf (Cli.ev_thetas a) = res_map_all (save_load P S) hs ->
+  hs <> [] ->
+  (forall h, In h hs -> Z.of_nat (length (h_thetas h)) = h_declared h /\ h_thetas h <> [] /\
+                        forall t u, In t (h_thetas h) -> In u (h_thetas h) -> snd t = snd u) ->
+  SrcCli.src_cli_evaluate_model _ _ _ _ _ _ _ (thetas_ev_lib P S loadf) a
+  = Ok [(Cli.ev_output a, concat (map (fun ih => map (pair (Z.of_nat (fst ih))) (h_thetas (snd ih))) (enumerate hs)))].
+Proof. exact src_cli_evaluate_complete. Qed.
+Print Assumptions C10_source_cli_evaluate_complete.
+
+(* not vacuous: two chain files given in the order (second, first) *)
+Example C10_source_cli_evaluate_example :
+  let h1 : holder Z unit := {| h_declared := 2; h_thetas := [(10, tt); (11, tt)] |} in
+  let h2 : holder Z unit := {| h_declared := 1; h_thetas := [(20, tt)] |} in
+  let loadf := fun p : Cli.path => match p with [1] => Ok h1 | [2] => Ok h2 | _ => Err 30 end in
+  SrcCli.src_cli_evaluate_model _ _ _ _ _ _ _ (thetas_ev_lib Z unit loadf) (Cli.mk_ev_args [] [[2]; [1]] [7])
+  = Ok [([7], [(0, (20, tt)); (1, (10, tt)); (1, (11, tt))])].
+Proof. vm_compute. reflexivity. Qed.
